@@ -103,7 +103,7 @@ CHECKS = {
    ref='DESIGN.md 3/C03'),
  'C13': dict(
    technique='online push-down protocol checker over every InterpreterMonitor callback recorded from both engines on generated runs incl. injected failing elements, cancel scripts and top-level-final runs',
-   text='Exploration: balanced/nested brackets, phase order exits->transitions->entries, nothing outside brackets but the allowed notices, content inside its owner bracket, configuration explained by reported exits/entries, log lines inside their <log> bracket, one stable notice per macrostep. Further modes: states with inline invoked sessions (incl. one that cannot be started), delayed sends whose events arrive from the timer thread while the session is idle, a second monitor attached and detached while the session runs (must see exactly the first one\\'s account in between), and the lambda front end Interpreter::on() registered for all before / all after notices.',
+   text='Exploration: balanced/nested brackets, phase order exits->transitions->entries, nothing outside brackets but the allowed notices, content inside its owner bracket, configuration explained by reported exits/entries, log lines inside their <log> bracket, one stable notice per macrostep. Further modes: states with inline invoked sessions (incl. one that cannot be started), delayed sends whose events arrive from the timer thread while the session is idle, a second monitor attached and detached while the session runs (must see exactly the account of the first one in between), and the lambda front end Interpreter::on() registered for all before / all after notices.',
    note='Trusted: vf/protocol.py automaton; completeness is judged against logs/configurations/events only.',
    ref='DESIGN.md 3/C13'),
  'C12': dict(
